@@ -271,38 +271,47 @@ impl Pay for chrono::NaiveDate {
         checked(join_id(id as u128, 0), self, Some(chrono_epoch() + chrono::Duration::days(id)))
     }
 }
+const NS: u128 = 1_000_000_000;
+/// time-of-day and date-time payload ids count NANOSECONDS (since midnight / since the Unix epoch): a conversion
+/// that loses sub-second digits changes the id
 fn naive_time(id: u128) -> Option<chrono::NaiveTime> {
-    chrono::NaiveTime::from_num_seconds_from_midnight_opt((id / 1000) as u32, ((id % 1000) * 1_000_000) as u32)
+    chrono::NaiveTime::from_num_seconds_from_midnight_opt((id / NS) as u32, (id % NS) as u32)
 }
 impl Pay for chrono::NaiveTime {
     fn parse(tok: &str) -> Self {
-        naive_time(split_id(tok).0).expect("time of day in ms")
+        naive_time(split_id(tok).0).expect("time of day in ns")
     }
     fn show(&self) -> String {
         use chrono::Timelike;
-        let id = self.num_seconds_from_midnight() as u128 * 1000 + (self.nanosecond() / 1_000_000) as u128;
+        let id = self.num_seconds_from_midnight() as u128 * NS + self.nanosecond() as u128;
         checked(join_id(id, 0), self, naive_time(id))
     }
 }
-fn naive_dt(id: i64) -> chrono::NaiveDateTime {
-    chrono_epoch().and_hms_opt(0, 0, 0).unwrap() + chrono::Duration::seconds(id)
+fn utc_dt(id: u128) -> Option<chrono::DateTime<chrono::Utc>> {
+    chrono::DateTime::<chrono::Utc>::from_timestamp((id / NS) as i64, (id % NS) as u32)
+}
+fn utc_id(d: &chrono::DateTime<chrono::Utc>) -> u128 {
+    d.timestamp() as u128 * NS + d.timestamp_subsec_nanos() as u128
+}
+fn naive_dt(id: u128) -> chrono::NaiveDateTime {
+    utc_dt(id).expect("date-time in ns").naive_utc()
 }
 impl Pay for chrono::NaiveDateTime {
     fn parse(tok: &str) -> Self {
-        naive_dt(split_id(tok).0 as i64)
+        naive_dt(split_id(tok).0)
     }
     fn show(&self) -> String {
-        let id = (*self - naive_dt(0)).num_seconds();
-        checked(join_id(id as u128, 0), self, Some(naive_dt(id)))
+        let id = utc_id(&self.and_utc());
+        checked(join_id(id, 0), self, Some(naive_dt(id)))
     }
 }
 impl Pay for chrono::DateTime<chrono::Utc> {
     fn parse(tok: &str) -> Self {
-        chrono::DateTime::<chrono::Utc>::from_timestamp(split_id(tok).0 as i64, 0).unwrap()
+        utc_dt(split_id(tok).0).unwrap()
     }
     fn show(&self) -> String {
-        let id = self.timestamp();
-        checked(join_id(id as u128, 0), self, chrono::DateTime::<chrono::Utc>::from_timestamp(id, 0))
+        let id = utc_id(self);
+        checked(join_id(id, 0), self, utc_dt(id))
     }
 }
 impl Pay for chrono::DateTime<chrono::Local> {
@@ -310,28 +319,24 @@ impl Pay for chrono::DateTime<chrono::Local> {
         <chrono::DateTime<chrono::Utc>>::parse(tok).with_timezone(&chrono::Local)
     }
     fn show(&self) -> String {
-        let id = self.timestamp();
-        checked(
-            join_id(id as u128, 0),
-            self,
-            chrono::DateTime::<chrono::Utc>::from_timestamp(id, 0).map(|d| d.with_timezone(&chrono::Local)),
-        )
+        let id = utc_id(&self.with_timezone(&chrono::Utc));
+        checked(join_id(id, 0), self, utc_dt(id).map(|d| d.with_timezone(&chrono::Local)))
     }
 }
-fn fixed_dt(id: i64, k: u32) -> Option<chrono::DateTime<chrono::FixedOffset>> {
+fn fixed_dt(id: u128, k: u32) -> Option<chrono::DateTime<chrono::FixedOffset>> {
     let off = chrono::FixedOffset::east_opt(*OFFSETS.get(k as usize)?)?;
-    Some(chrono::DateTime::<chrono::Utc>::from_timestamp(id, 0)?.with_timezone(&off))
+    Some(utc_dt(id)?.with_timezone(&off))
 }
 impl Pay for chrono::DateTime<chrono::FixedOffset> {
     fn parse(tok: &str) -> Self {
         let (id, k) = split_id(tok);
-        fixed_dt(id as i64, k).expect("datetime with offset")
+        fixed_dt(id, k).expect("datetime with offset")
     }
     fn show(&self) -> String {
-        let id = self.timestamp();
+        let id = utc_id(&self.with_timezone(&chrono::Utc));
         let off = self.offset().local_minus_utc();
         let k = OFFSETS.iter().position(|o| *o == off).map(|k| k as u32).unwrap_or(99);
-        checked(join_id(id as u128, k), self, fixed_dt(id, k))
+        checked(join_id(id, k), self, fixed_dt(id, k))
     }
 }
 const UNIX_JD: i32 = 2440588;
@@ -345,46 +350,46 @@ impl Pay for time::Date {
     }
 }
 fn time_time(id: u128) -> Option<time::Time> {
-    let s = id / 1000;
-    time::Time::from_hms_milli((s / 3600) as u8, ((s / 60) % 60) as u8, (s % 60) as u8, (id % 1000) as u16).ok()
+    let s = id / NS;
+    time::Time::from_hms_nano((s / 3600) as u8, ((s / 60) % 60) as u8, (s % 60) as u8, (id % NS) as u32).ok()
 }
 impl Pay for time::Time {
     fn parse(tok: &str) -> Self {
-        time_time(split_id(tok).0).expect("time of day in ms")
+        time_time(split_id(tok).0).expect("time of day in ns")
     }
     fn show(&self) -> String {
-        let (h, m, s, ms) = self.as_hms_milli();
-        let id = ((h as u128 * 60 + m as u128) * 60 + s as u128) * 1000 + ms as u128;
+        let (h, m, s, ns) = self.as_hms_nano();
+        let id = ((h as u128 * 60 + m as u128) * 60 + s as u128) * NS + ns as u128;
         checked(join_id(id, 0), self, time_time(id))
     }
 }
-fn prim_dt(id: i64) -> time::PrimitiveDateTime {
-    time::PrimitiveDateTime::new(time::Date::from_julian_day(UNIX_JD).unwrap(), time::Time::MIDNIGHT)
-        + time::Duration::seconds(id)
+fn prim_dt(id: u128) -> time::PrimitiveDateTime {
+    let d = time::OffsetDateTime::from_unix_timestamp_nanos(id as i128).expect("date-time in ns");
+    time::PrimitiveDateTime::new(d.date(), d.time())
 }
 impl Pay for time::PrimitiveDateTime {
     fn parse(tok: &str) -> Self {
-        prim_dt(split_id(tok).0 as i64)
+        prim_dt(split_id(tok).0)
     }
     fn show(&self) -> String {
-        let id = (*self - prim_dt(0)).whole_seconds();
-        checked(join_id(id as u128, 0), self, Some(prim_dt(id)))
+        let id = self.assume_utc().unix_timestamp_nanos() as u128;
+        checked(join_id(id, 0), self, Some(prim_dt(id)))
     }
 }
-fn offset_dt(id: i64, k: u32) -> Option<time::OffsetDateTime> {
+fn offset_dt(id: u128, k: u32) -> Option<time::OffsetDateTime> {
     let off = time::UtcOffset::from_whole_seconds(*OFFSETS.get(k as usize)?).ok()?;
-    Some(time::OffsetDateTime::from_unix_timestamp(id).ok()?.to_offset(off))
+    Some(time::OffsetDateTime::from_unix_timestamp_nanos(id as i128).ok()?.to_offset(off))
 }
 impl Pay for time::OffsetDateTime {
     fn parse(tok: &str) -> Self {
         let (id, k) = split_id(tok);
-        offset_dt(id as i64, k).expect("offset datetime")
+        offset_dt(id, k).expect("offset datetime")
     }
     fn show(&self) -> String {
-        let id = self.unix_timestamp();
+        let id = self.unix_timestamp_nanos() as u128;
         let off = self.offset().whole_seconds();
         let k = OFFSETS.iter().position(|o| *o == off).map(|k| k as u32).unwrap_or(99);
-        checked(join_id(id as u128, k), self, offset_dt(id, k))
+        checked(join_id(id, k), self, offset_dt(id, k))
     }
 }
 fn decimal(id: u128, k: u32) -> Option<rust_decimal::Decimal> {
